@@ -103,6 +103,84 @@ def access_tables(source: str):
     return exported, writes
 
 
+def binding_tables(project_source: str):
+    """The scan of `find_used_modules` that turns the module name of a USE statement into a module
+    object, read from the AST:
+      for dependency in entity.uses:
+          ...
+          for candidate in chain(<A>, <B>):
+              if <name> == candidate.name.lower():
+                  dependency[0] = candidate
+                  break
+    -> ([A, B] as parameter names, [attributes of Project passed for A and B in Project.correlate],
+        first_match: the assignment is followed by `break`).  Also requires that Project.correlate still
+    builds one ExternalModule per entry of settings.extra_mods."""
+    import ast
+
+    tree = ast.parse(project_source)
+    fn = _find_def(tree, ["find_used_modules"])
+    params = [a.arg for a in fn.args.args]
+    scan = None
+    for outer in ast.walk(fn):
+        if not (isinstance(outer, ast.For) and isinstance(outer.iter, ast.Attribute) and outer.iter.attr == "uses"
+                and isinstance(outer.target, ast.Name)):
+            continue
+        dep = outer.target.id
+        for inner in ast.walk(outer):
+            if not (isinstance(inner, ast.For) and inner is not outer and isinstance(inner.iter, ast.Call)
+                    and isinstance(inner.iter.func, ast.Name) and inner.iter.func.id == "chain"
+                    and isinstance(inner.target, ast.Name)
+                    and all(isinstance(a, ast.Name) for a in inner.iter.args)):
+                continue
+            cand = inner.target.id
+            if len(inner.body) != 1 or not isinstance(inner.body[0], ast.If) or inner.body[0].orelse:
+                continue
+            test, body = inner.body[0].test, inner.body[0].body
+            lowered = f"{cand}.name.lower()"
+            if not (isinstance(test, ast.Compare) and len(test.ops) == 1 and isinstance(test.ops[0], ast.Eq)
+                    and lowered in (ast.unparse(test.left), ast.unparse(test.comparators[0]))):
+                continue
+            if not body or not isinstance(body[0], ast.Assign) or ast.unparse(body[0].targets[0]) != f"{dep}[0]" \
+                    or ast.unparse(body[0].value) != cand:
+                continue
+            other = test.comparators[0] if ast.unparse(test.left) == lowered else test.left
+            # the other side must be the lower-cased name of the statement
+            lowered_dep = any(isinstance(n, ast.Assign) and isinstance(n.targets[0], ast.Name)
+                              and isinstance(other, ast.Name) and n.targets[0].id == other.id
+                              and ast.unparse(n.value) == f"{dep}[0].lower()" for n in ast.walk(outer)) \
+                or ast.unparse(other) == f"{dep}[0].lower()"
+            if not lowered_dep:
+                continue
+            scan = ([a.id for a in inner.iter.args], len(body) == 2 and isinstance(body[1], ast.Break))
+    if scan is None:
+        raise LookupError("find_used_modules no longer binds a USE by `for candidate in chain(...): "
+                          "if <lower name> == candidate.name.lower(): dependency[0] = candidate`")
+    chain_params, first_match = scan
+    for a in chain_params:
+        if a not in params:
+            raise LookupError(f"find_used_modules: chain argument {a!r} is not a parameter")
+    # Project.correlate: which attributes are passed, and the stubs made from settings.extra_mods
+    corr = _find_def(tree, ["Project", "correlate"])
+    passed = None
+    for n in ast.walk(corr):
+        if isinstance(n, ast.Call) and isinstance(n.func, ast.Name) and n.func.id == "find_used_modules" \
+                and len(n.args) == len(params) and not n.keywords:
+            args = [a.attr if isinstance(a, ast.Attribute) and isinstance(a.value, ast.Name) and a.value.id == "self"
+                    else None for a in n.args]
+            passed = [args[params.index(a)] for a in chain_params]
+    if passed is None or None in passed:
+        raise LookupError("Project.correlate no longer calls find_used_modules(entity, self.<...>, ...) positionally")
+    stubs = False
+    for n in ast.walk(corr):
+        if isinstance(n, (ast.ListComp, ast.GeneratorExp)) and isinstance(n.elt, ast.Call) \
+                and isinstance(n.elt.func, ast.Name) and n.elt.func.id == "ExternalModule" \
+                and ast.unparse(n.generators[0].iter).endswith("settings.extra_mods.items()"):
+            stubs = True
+    if not stubs:
+        raise LookupError("Project.correlate no longer builds ExternalModule(name, url) for settings.extra_mods.items()")
+    return chain_params, passed, first_match
+
+
 def translate(common):
     common.import_ford()
     import ford.sourceform as sf
@@ -133,6 +211,25 @@ def translate(common):
               + ", ".join(sorted({w for w, _ in writes})) + " -/",
               "def slotKeywordLists : List (List (List Char)) := ["
               + ",\n  ".join("[" + ", ".join(lean_chars(k) for k in kws) + "]" for _, kws in writes) + "]"]
+    import ford.fortran_project as fp
+    import ford.settings as fs
+
+    chain_params, chain_attrs, first_match = binding_tables(Path(fp.__file__).read_text())
+    intrinsic = list(getattr(fs, "INTRINSIC_MODS", {}) or {})
+    if not intrinsic:
+        raise LookupError("ford.settings.INTRINSIC_MODS is gone or empty")
+    defaults = list(fs.ProjectSettings().extra_mods)
+    if defaults[:len(intrinsic)] != intrinsic:
+        raise LookupError("ProjectSettings().extra_mods no longer starts with the entries of INTRINSIC_MODS")
+    lines += ["", "/-- `for candidate in chain(<these parameters>)` in `find_used_modules` -/",
+              "def bindingChain : List (List Char) := [" + ", ".join(lean_chars(w) for w in chain_params) + "]",
+              "/-- attributes of `Project` passed for them by `Project.correlate` -/",
+              "def bindingChainArgs : List (List Char) := [" + ", ".join(lean_chars(w) for w in chain_attrs) + "]",
+              "/-- `dependency[0] = candidate` is followed by `break` -/",
+              f"def bindingFirstMatch : Bool := {'true' if first_match else 'false'}",
+              "/-- keys of `ford.settings.INTRINSIC_MODS` (every project gets one empty ExternalModule for each) -/",
+              "def intrinsicModNames : List (List Char) := [" + ",\n  ".join(lean_chars(w) for w in intrinsic) + "]"]
     lines += ["", "end Ford.Generated.C06", ""]
     common.write_if_changed(common.LEAN / "FordModel" / "Generated" / "C06.lean", "\n".join(lines))
-    return {"regex": {a: (p, f) for a, p, f in items}, "exported": exported, "slot_writes": writes}
+    return {"regex": {a: (p, f) for a, p, f in items}, "exported": exported, "slot_writes": writes,
+            "binding": (chain_params, chain_attrs, first_match), "intrinsic_mods": intrinsic}
